@@ -52,7 +52,7 @@ theorem expand_append (a b : List Item) :
       | some x, some y => some (x ++ y)
       | _, _ => none := by
   induction a with
-  | nil => cases expand b <;> simp [expand]
+  | nil => simp only [List.nil_append, expand]; cases expand b <;> rfl
   | cons i r ih =>
     simp only [List.cons_append, expand, ih]
     cases i.expand <;> cases expand r <;> cases expand b <;> simp
@@ -168,22 +168,35 @@ theorem mulCheck_error_iff (lit : String) (e : MulErr) :
   unfold mulCheck
   rcases h : parseInt lit with ⟨n, _ | ie⟩
   · by_cases h0 : n ≤ 0
-    · simp [h0]
+    · simp only [h0, ite_true]
       constructor
-      · intro h; exact Or.inl h.symm
-      · rintro (h | ⟨h, -⟩)
-        · exact h.symm
-        · omega
+      · intro he; injection he with he; exact Or.inr (Or.inl ⟨n, rfl, h0, he.symm⟩)
+      · rintro (⟨v, ie, hp, -⟩ | ⟨v, hp, hv, rfl⟩ | ⟨v, hp, hv, rfl⟩)
+        · cases hp
+        · rfl
+        · cases hp; omega
     · by_cases h1 : 9999 < n
-      · simp [h0, h1]
+      · simp only [h0, h1, ite_true, ite_false]
         constructor
-        · intro h; exact h.symm
-        · intro h; exact h.symm
-      · simp [h0, h1]
-  · simp
+        · intro he; injection he with he; exact Or.inr (Or.inr ⟨n, rfl, h1, he.symm⟩)
+        · rintro (⟨v, ie, hp, -⟩ | ⟨v, hp, hv, rfl⟩ | ⟨v, hp, hv, rfl⟩)
+          · cases hp
+          · cases hp; omega
+          · rfl
+      · simp only [h0, h1, ite_false]
+        constructor
+        · intro he; cases he
+        · rintro (⟨v, ie, hp, -⟩ | ⟨v, hp, hv, rfl⟩ | ⟨v, hp, hv, rfl⟩)
+          · cases hp
+          · cases hp; omega
+          · cases hp; omega
+  · dsimp only
     constructor
-    · intro h; exact h.symm
-    · intro h; exact h.symm
+    · intro he; injection he with he; exact Or.inl ⟨n, ie, rfl, he.symm⟩
+    · rintro (⟨v, ie', hp, rfl⟩ | ⟨v, hp, hv, rfl⟩ | ⟨v, hp, hv, rfl⟩)
+      · cases hp; rfl
+      · cases hp
+      · cases hp
 
 /-- **C14, rejection.** If the items before `name * num` are fine and `num` is not a valid
 multiplier, the parse fails with Go's message for that case, located on the multiplier token
@@ -223,7 +236,6 @@ theorem bad_multiplier_rejected_items (env : Env) (closing : TT)
     have : expand (Item.stepMul name star num :: post) = none := by
       simp [expand, Item.expand, mulOf, he]
     simp [this]
-    cases expand pre <;> rfl
 
 section cases_
 variable (env : Env) (closing : TT) (hcl : closing = .RBRACE ∨ closing = .RPAREN) (s : PState)
@@ -259,8 +271,8 @@ theorem bad_multiplier_too_large (v : Int) (hp : parseInt num.lit = (v, none)) (
   bad_multiplier_rejected env closing hcl s pre name star num tail hwf hbad out hex _
     ((mulCheck_error_iff _ _).mpr (Or.inr (Or.inr ⟨v, hp, hv, rfl⟩))) acc fuel hf
 
-/-- `name *` not followed by an INT token. -/
 omit hbad in
+/-- `name *` not followed by an INT token. -/
 theorem missing_multiplier_rejected (hn : name.type = .IDENT) (hs : star.type = .MUL)
     (hm : num.type ≠ .INT) :
     (parseListValue env (.movement closing) true fuel acc).run
@@ -374,7 +386,7 @@ example (env : Env) (s : PState) (rest : List Tok) :
         "movement mulplier '10000' is too large. Maximum is 9999") := by
   have := bad_multiplier_too_large env .RPAREN (Or.inr rfl) s [] (tk .IDENT "walk_up") (tk .MUL "*")
     (tk .INT "10000") rest (by simp) ⟨rfl, rfl, rfl⟩ [] rfl [] 1 (by decide) 10000 (by decide) (by decide)
-  simpa [printItems] using this
+  exact this.trans (congrArg (fun m => Except.error (newParseError (tk .INT "10000") m)) (by decide))
 
 /-- `walk_up * 0` and `walk_up * 09`. -/
 example : mulCheck "0" = .error .nonPositive ∧ mulCheck "09" = .error (.unparsable .syntax) ∧
